@@ -758,3 +758,20 @@ package keeper
 //@ loop 1 step [ineligible-skipped] !k.IsEligibleForConsumerRewards(ctx, consumerVal.JoinHeight) ==> E == prev(E) && X == prev(X)
 //@ ensures [store-kept] S == old(S)
 //@ ensures [nothing-to-share] tokens.Empty() ==> err == nil && E == old(E)
+
+// ---------------------------------------------------------------- C07: light-client attacks
+
+//@ func Keeper.GetByzantineValidators
+//@ requires misbehaviour.Header1 != nil && misbehaviour.Header2 != nil
+//@ loop 2 step [only-double-signers] len(validators) == prev(len(validators)) || (len(validators) == prev(len(validators)) + 1 && sign#2.BlockIDFlag != tmtypes.BlockIDFlagAbsent && has(header1Signers, sign#2.ValidatorAddress.String()))
+//@ loop 2 step [by-address-in-header1] len(validators) == prev(len(validators)) || validators[len(validators) - 1] == lightBlock1.ValidatorSet.GetByAddress(sign#2.ValidatorAddress).1
+//@ loop 2 step [earlier-kept] forall j int :: 0 <= j && j < prev(len(validators)) ==> validators[j] == prev(validators[j])
+//@ ensures [pure] S == old(S) && E == old(E) && X == old(X)
+
+//@ func Keeper.HandleConsumerMisbehaviour
+//@ requires [W-infraction-params] k.GetInfractionParameters(ctx, consumerId).1 == nil ==> k.GetInfractionParameters(ctx, consumerId).0.DoubleSign != nil
+//@ loop 1 invariant [idx] 0 <= _i && _i <= len(byzantineValidators)
+//@ ensures [invalid-rejected] old(k.CheckMisbehaviour(ctx, consumerId, misbehaviour)) != nil ==> result != nil && S == old(S) && E == old(E) && X == old(X)
+//@ ensures [one-failure-does-not-stop-the-rest] result != nil && $SlashValidator.called ==> false
+//@ precall SlashValidator [who] $SlashValidator.providerAddr == k.GetProviderAddrFromConsumerAddr(ctx, consumerId, types.NewConsumerConsAddress(sdk.ConsAddress(v.Address.Bytes()))) && $SlashValidator.slashingParams == $GetInfractionParameters.ret0.DoubleSign
+//@ precall JailAndTombstoneValidator [who] $JailAndTombstoneValidator.providerAddr == $SlashValidator.providerAddr && $SlashValidator.ret == nil
